@@ -183,6 +183,76 @@ func genC14(tier string, seed int64) (*Family, error) {
 `, n, d.tagCall, d.plainCall, d.id != "Mix"))
 		}
 	}
+	// a second call on the same engine with a fresh *Stag: only the tag of the current call counts
+	for _, d := range []struct{ id, call, oracle string }{
+		{"Sort", "eng.ExecuteWithStopTagDirect(rb, b, %s)", "checkSortedTag(tr, n, allTrue(n), s, t, f, b, err)"},
+		{"Selected", "eng.ExecuteSelectedRulesWithControlAndStopTag(rb, b, %s, []string{\"r0\", \"r1\"})", "checkSortedTag(tr, n, allTrue(n), s, t, f, b, err)"},
+		{"AsGiven", "eng.ExecuteSelectedRulesWithControlAndStopTagAsGivenSortedName(rb, b, %s, []string{\"r1\", \"r0\"})", "checkAsGiven(tr, n, []int{1, 0}, t, f, b, err)"},
+		{"Mix", "eng.ExecuteMixModelWithStopTagDirect(rb, %s)", "checkMixTag(mark, n, s, t, f, err)"},
+	} {
+		for _, first := range []bool{true, false} {
+			name := fmt.Sprintf("H_Second%s_%v", d.id, first)
+			add(name, "second-call:"+d.id, fmt.Sprintf("%s: second call on the same engine with a fresh tag (first call set its tag: %v)", d.id, first),
+				fmt.Sprintf(`	n := 2
+	s := symSal(n)
+	f := symFlags("f", n)
+	t := symFlags("t", n)
+	b := vnd.Bool("b")
+	_ = b
+	stag1 := &engine.Stag{}
+	dc := newDC(allFalse(n))
+	addFlags(dc, "t", []bool{%v, %v})
+	dc.Add("stag", stag1)
+	rb := buildText(dc, rulesTextOpt(n, s, "t"))
+	eng := engine.NewGengine()
+	_ = %s
+	vnd.Event("ret1")
+	vnd.Quiesce()
+	vnd.Assert(stag1.StopTag == %v, "the first call's tag is what its rules made it")
+	mark := len(vnd.Trace())
+	stag := &engine.Stag{}
+	rb.Dc.Add("stag", stag)
+	addFlags(rb.Dc, "f", f)
+	addFlags(rb.Dc, "t", t)
+	err := %s
+	vnd.Event("ret")
+	vnd.Quiesce()
+	vnd.Reach("executed")
+	tr := vnd.Trace()[mark:]
+	_ = tr
+	%s
+`, first, first, fmt.Sprintf(d.call, "stag1"), first, fmt.Sprintf(d.call, "stag"), d.oracle))
+		}
+	}
+	b.WriteString(`
+// checkMixTag (second call, events counted from mark): if the first rule sets the tag or fails
+// nothing else starts, otherwise every other rule runs once; error iff a started rule failed
+func checkMixTag(mark int, n int, s []int64, t, f []bool, err error) {
+	tr := vnd.Trace()[mark:]
+	ord := startOrder(tr, n)
+	if len(ord) == 0 {
+		vnd.Assert(false, "at least one rule runs")
+		return
+	}
+	first := ord[0]
+	for j := 0; j < n; j++ {
+		vnd.Assert(s[first] >= s[j], "the first rule has the highest salience")
+		vnd.Assert(countSince(mark, sname(j)) <= 1, "no rule starts twice")
+	}
+	if len(ord) == 1 && n > 1 {
+		vnd.Assert(vnd.Or(t[first], f[first]), "the rest is skipped only if the first rule set the tag or failed")
+		vnd.Assert(vnd.Iff(err != nil, f[first]), "error iff the first rule failed")
+		return
+	}
+	vnd.Assert(vnd.And(!t[first], !f[first]), "once the first rule set the tag no further rule starts")
+	vnd.Assert(len(ord) == n, "without a tag every rule runs")
+	failed := false
+	for _, i := range ord {
+		failed = vnd.Or(failed, f[i])
+	}
+	vnd.Assert(vnd.Iff(err != nil, failed), "error iff a started rule failed")
+}
+`)
 	b.WriteString(`
 // sameRuns: both traces start the same rules (ordered = in the same order).
 func sameRuns(tr1, tr2 []string, n int, ordered bool) {
@@ -327,9 +397,90 @@ func H_many_locals() {
 	vnd.Reach("executed")
 }
 `)
+	b.WriteString(`
+// the same rule twice in one DAG layer: two executions of one AST inside the same conc block at
+// once; each execution's locals hold the values its own members computed
+func H_same_rule_twice_conc() {
+	var mu sync.Mutex
+	next := int64(0)
+	var pairs [][2]int64
+	arrive := new(sync.WaitGroup)
+	dc := newDC(nil)
+	dc.Add("tick", func() int64 {
+		// no member computes before all four members of the two executions are running
+		arrive.Done()
+		arrive.Wait()
+		mu.Lock()
+		next++
+		v := next
+		mu.Unlock()
+		vnd.Event("tick")
+		return v
+	})
+	dc.Add("pair", func(x, y int64) {
+		mu.Lock()
+		pairs = append(pairs, [2]int64{x, y})
+		mu.Unlock()
+		vnd.Event("pair")
+	})
+	rb := buildText(dc, "rule \"r0\" begin\n conc {\n  a = tick()\n  b = tick()\n }\n pair(a, b)\nend\n")
+	eng := engine.NewGengine()
+	for call := 0; call < 2; call++ {
+		mu.Lock()
+		next, pairs = 0, nil
+		mu.Unlock()
+		arrive.Add(4)
+		err := eng.ExecuteDAGModel(rb, [][]string{{"r0", "r0"}})
+		vnd.Event("ret")
+		vnd.Quiesce()
+		vnd.NoRaces("map:")
+		vnd.StopIfViolated()
+		vnd.Assert(err == nil, "both executions find their own locals")
+		vnd.Assert(len(pairs) == 2, "both executions reach the statement after the block")
+		seen := map[int64]int{}
+		for _, p := range pairs {
+			seen[p[0]]++
+			seen[p[1]]++
+			vnd.Assert(p[0] != p[1], "two members, two values")
+		}
+		for v := int64(1); v <= 4; v++ {
+			vnd.Assert(seen[v] == 1, "every computed value lands in exactly one execution's locals")
+		}
+	}
+	vnd.Reach("executed")
+}
+
+// a function held in a rule local is callable by that rule only
+func H_function_local() {
+	k := vnd.Int64("k")
+	dc := newDC(nil)
+	dc.Add("k", k)
+	dc.Add("mk", func(m int64) func(int64) int64 { return func(x int64) int64 { return x * m } })
+	rb := buildText(dc, "rule \"r0\" salience 10 begin\n ev(\"r0.s\")\n sc = mk(3)\n x = sc(k)\n ev(\"r0.e\")\n return x\nend\nrule \"r1\" salience 5 begin\n ev(\"r1.s\")\n y = sc(5)\n ev(\"r1.e\")\n return y\nend\n")
+	eng := engine.NewGengine()
+	for call := 0; call < 2; call++ {
+		e1 := vnd.Count("r1.e")
+		err := eng.Execute(rb, false)
+		res, _ := eng.GetRulesResultMap()
+		x, ok := res["r0"].(int64)
+		vnd.Assert(ok && x == 3*k, "the rule calls the function held in its own local")
+		vnd.Assert(err != nil, "another rule does not see the function-valued local")
+		vnd.Assert(vnd.Count("r1.e") == e1, "the reader stops at the undefined function")
+		_, has := res["r1"]
+		vnd.Assert(!has, "the reader returns nothing")
+	}
+	err := eng.ExecuteSelectedRules(rb, []string{"r1"})
+	vnd.Assert(err != nil, "also in a later call that runs the reader alone")
+	_, e := dc.Get("sc")
+	vnd.Assert(e != nil, "a local never appears among the injected names")
+	vnd.Reach("executed")
+}
+`)
+	fam.Instances = append(fam.Instances, Instance{Func: "H_same_rule_twice_conc", Stratum: "same-rule-overlap", Desc: "two overlapping executions of one rule inside its conc block", Expect: []string{"executed"}},
+		Instance{Func: "H_function_local", Stratum: "function-local", Desc: "a function-valued local is private to its rule", Expect: []string{"executed"}})
 	fam.Instances = append(fam.Instances, Instance{Func: "H_after_fault", Stratum: "after-fault", Desc: "locals of a faulted execution do not survive", Expect: []string{"executed"}},
 		Instance{Func: "H_many_locals", Stratum: "many-locals", Desc: "rules with 1..33 locals followed by a reader", Expect: []string{"executed"}})
-	fam.Files[repoDir+"/zz_verif/"+pkg+"/h.go"] = strings.Replace(stdHead(pkg), "import (", "import (\n\t\"strconv\"", 1) + b.String()
+	fam.Files[repoDir+"/zz_verif/"+pkg+"/h.go"] = strings.Replace(stdHead(pkg), "import (", "import (\n\t\"strconv\"\n\t\"sync\"", 1) + b.String()
 	fam.Files[repoDir+"/zz_verif/"+pkg+"/lib.go"] = libFile(pkg)
 	fam.TestFile = repoDir + "/zz_verif/" + pkg + "/zz_replay_test.go"
 	fam.TestSrc = testFile(pkg, fam.Instances)
